@@ -1,5 +1,6 @@
 """C06 — Confirmable retransmission schedule, single outcome, wait time (DESIGN.md §4 C06, design/C06.md)."""
 import os
+import re
 from vlib import common as C, msglib as L
 
 MANIFEST = {
@@ -30,7 +31,20 @@ MANIFEST = {
             "attempts with a second message waiting for its NSTART slot.  Observation, not theorem (oracle on the implementation's "
             "trace alone): at the end of a run at which the library reports nothing pending and every reply of the peer has been "
             "delivered, every accepted Confirmable - one held back by NSTART included - for which no ACK/RST/response ever arrived "
-            "has had a NACK-handler call; attempts whose write failed count as transmissions for schedule and retransmission count.",
+            "has had a NACK-handler call; attempts whose write failed count as transmissions for schedule and retransmission count.  "
+            "Round X06: ack_request_code_is_bad_ack + m_solo_ack_request_code (an ACK that carries the message id but a REQUEST code "
+            "0.01-0.31 - ACK branch of coap_dispatch, Msg.rxAckReq - is the model's rxBad event: node removed, slot released, ONE NACK "
+            "BAD_RESPONSE; so every whole-run theorem above ranges over such ACKs), tied on the event q:S:MID:CODE, the peer fate q<D> "
+            "and a third drop-subset sweep with such ACKs; oracle on the implementation alone: no transmission of a Confirmable "
+            "strictly after an ACK (any code) or RST with its message id was delivered.  notify_wait_le_every_deadline (C06 model, "
+            "every state, every list of notifications coap_check_notify sends from INSIDE coap_io_prepare_io: the returned wait is "
+            "computed after they were queued and does not exceed any pending deadline, theirs included); on C11's SERVER model "
+            "(Model/Observe.lean + Model/ObserveWait.lean: the wait incl. the idle-session timers) "
+            "obs_wait_le_every_deadline_partial / obs_io_wait_le_every_deadline_partial (hypotheses: the queue the call leaves is in "
+            "deadline order with nothing due - invariants of that model not proved here); `obsw` lines run a REAL server context with "
+            "observable resources (harness/observe.c) and compare the value coap_io_prepare_epoll() returns at every io / adv event "
+            "with that model exactly; observation (oracle on the implementation alone): that value is never 0 and never beyond the "
+            "earliest deadline of the send queue as the call leaves it.",
     "note": "Trusted: Lean kernel (+ propext, Classical.choice, Quot.sound), harness/sim_core.h + msg.c (--wrap clock/network), the scenario "
             "interpreter Driver/Msg.lean, generators/oracles, the hand transcription M (checked on the cases run only).  M-level theorems: "
             "sessions stay established (no hold/disconnect: session failure is C08's), no-wrap range D7, T > 0.  "
@@ -60,19 +74,27 @@ REQUIRED_THEOREMS = ["queue_abs_invariant", "insert_commutes", "pop_commutes", "
                      "m_refines_timer_partial", "m_refines_timer_from_partial", "m_schedule_via_timer_partial",
                      "m_single_outcome_via_timer_partial",
                      "m_delayed_has_pending", "w_failed_retransmission_is_lost_datagram", "w_run_tracks_m_partial",
-                     "w_single_outcome_partial", "w_attempts_on_schedule_partial", "w_drain_break_strands_witness", "w_no_failure_is_m"]
+                     "w_single_outcome_partial", "w_attempts_on_schedule_partial", "w_drain_break_strands_witness", "w_no_failure_is_m",
+                     "ack_request_code_is_bad_ack", "m_solo_ack_request_code", "notify_wait_le_every_deadline",
+                     "obs_wait_le_every_deadline_partial", "obs_io_wait_le_every_deadline_partial"]
 RULE = ("scenario lines for harness/msg.c (one real client context, 1-3 UDP sessions sharing the send queue, virtual clock, "
         "scripted peer): every drop subset of the first 10 datagrams of an exchange (5 transmissions x 5 ACKs) for several "
         "parameter sets and ACK delays placed just before / at / after each timer deadline; random multi-message, "
         "multi-session scenarios with lost / delayed / duplicated ACKs and RSTs, stray ACK/RST/NON/invalid-code datagrams, "
         "cancel-by-token, session failure, explicit late I/O steps; socket writes that fail (fate x: coap_socket_send returns -1) "
         "- every lost / write-fails pattern over the attempts of a message x every outcome with a second message waiting for its "
-        "NSTART slot, and at random positions of random scenarios; raw queue-operation sequences on real coap_queue_t "
+        "NSTART slot, and at random positions of random scenarios; ACKs that carry the message id but a request code 0.01-0.31 "
+        "(fate q / event q:) - every drop subset of the first 10 datagrams once more with such ACKs, and mixed into random "
+        "scenarios; `obsw` lines for harness/observe.c: a real SERVER context with 1-3 observable resources (NOTIFY_CON / default "
+        "/ NON_ALWAYS), 1-4 real clients, changes followed by the I/O step that sends the notifications from inside "
+        "coap_io_prepare_io with an empty or later-armed send queue, ACK / RST / silence, time steps around 2000*2^k and the "
+        "idle-session timeout, plus C11's own histories; raw queue-operation sequences on real coap_queue_t "
         "nodes (sq); coap_calc_timeout over random and boundary parameters incl. the uint16 wrapping range (tmo); "
         "non-trivial = distinct line on which at least one Confirmable was transmitted / one queue op changed the queue")
 TRUSTED_BASE = ["Lean 4.33 kernel; axioms allowed: propext, Classical.choice, Quot.sound (audited per theorem each run)",
                 "harness/sim_core.h + harness/msg.c (virtual clock and scripted network by --wrap of coap_ticks / coap_socket_send / "
-                "coap_socket_recv), the scenario interpreter in Driver/Msg.lean, generators and oracles in vlib/msglib.py",
+                "coap_socket_recv), the scenario interpreter in Driver/Msg.lean, generators and oracles in vlib/msglib.py; for `obsw` "
+                "lines harness/observe.c, Driver/Observe.lean + Driver/ObserveWait.lean and C11's model Model/Observe.lean",
                 "M (Model/SendQueue.lean, Model/MsgLayer.lean, Model/MsgLayerW.lean) is a hand transcription of the anchored C functions; checked "
                 "against the compiled code by exact trace equality (transmissions with virtual timestamps, NACKs, con_active, "
                 "delay-queue lengths, the whole send queue with absolute deadlines after every event) on the cases run only"]
@@ -153,6 +175,167 @@ def gen_wf(rng):
     return " ".join(w[:2] + [",".join(fates)] + w[3:])
 
 
+def exhaustive_q(ctx, psets):
+    """the drop-subset sweep once more with the peer's ACK carrying a REQUEST code (fate q: the 4 bytes 6x 0y <mid>, y = 1..31):
+    "until an ACK … carrying its message id arrives" - whatever else the ACK carries.  Every subset of
+    {CON0,ACK0,…,CON4,ACK4} dropped, the surviving ACKs aimed just before / at / after each timer deadline."""
+    out = []
+    for pi, p in enumerate(psets):
+        for mask in range(1024):
+            r = (mask * 41 + pi * 59) % 256
+            T = L.py_calc_timeout(p[0], p[1], p[2], p[3], r)
+            fates = []
+            for k in range(5):
+                if (mask >> (2 * k)) & 1 or (mask >> (2 * k + 1)) & 1:
+                    fates.append("d")
+                else:
+                    cls = (mask // 5 + k + pi) % 6
+                    d = [1, 50, max(0, T * 2 ** k - 1), T * 2 ** k, T * 2 ** k + 1, T // 2][cls]
+                    fates.append("q%d" % d)
+            out.append("msg %s %s s:0:c:%d:%d g:400" % (L.sess_word(p, 1), ",".join(fates), 5000 + mask, r))
+    return out
+
+
+REQ_CODES = [1, 1, 2, 3, 4, 5, 6, 7, 8, 16, 30, 31]
+
+
+def gen_q(rng):
+    """a random scenario of the c06 flavour in which some of the peer's ACKs (fates) and some of the stray / matching ACK
+    events carry a request code 0.01 … 0.31 instead of 0.00"""
+    w = L.gen_scenario(rng, "c06").split()
+    fates = [] if w[2] == "-" else w[2].split(",")
+    share = rng.choice([0.3, 0.6, 1.0])
+    hit = False
+    for k, f in enumerate(fates):
+        if f[0] in "aA" and rng.random() < share:
+            fates[k] = ("q" if f[0] == "a" else "Q") + f[1:]
+            hit = True
+    evs = w[3:]
+    sent = [(e.split(":")[1], e.split(":")[3]) for e in evs if e.startswith("s:") and e.split(":")[2] == "c"]
+    for k, e in enumerate(evs):
+        f = e.split(":")
+        if f[0] in ("a", "b") and rng.random() < share:
+            evs[k] = "q:%s:%s:%d" % (f[1], f[2], rng.choice(REQ_CODES))
+            hit = True
+    if (not hit or rng.random() < 0.3) and sent:
+        # an ACK with a request code for a message that is (or was) outstanding, at a random later point of the scenario
+        s, mid = rng.choice(sent)
+        first = next(k for k, e in enumerate(evs) if e.startswith("s:%s:c:%s:" % (s, mid)))
+        pos = rng.randint(first + 1, len(evs))
+        ins = ["q:%s:%s:%d" % (s, mid, rng.choice(REQ_CODES))]
+        if rng.random() < 0.5:
+            ins = ["t:%d" % rng.choice([0, 1, 100, 1999, 2000, 2001, 3000, 5000])] + ins
+        evs[pos:pos] = ins
+        if not evs[-1].startswith("g:"):
+            evs.append("g:3000")
+    return " ".join(w[:2] + [",".join(fates) if fates else "-"] + evs)
+
+
+# ---------------------------------------------------------------- SERVER contexts: the wait when a Confirmable is sent from
+# inside coap_io_prepare_io (round X06, seed C06-12).  `obsw` lines run on C11's harness (harness/observe.c: a real server
+# context with observable resources, real client contexts, virtual clock) and are replayed through C11's model
+# (Model/Observe.lean) + Model/ObserveWait.lean (the returned wait); the state after every event has one more field, W<ms>.
+def _p11():
+    import props.C11 as P11
+    return P11
+
+
+HARNESS_FOR_OP = {"obsw": lambda ctx: _p11().harness(ctx)}
+OBSW_ADV = [0, 1, 100, 500, 1000, 1999, 2000, 2001, 3999, 4000, 4001, 6000, 8000, 14000, 16000, 30000, 32000, 62000]
+
+
+def gen_obsw(rng):
+    """a server with 1-3 observable resources - mostly NOTIFY_CON, some default (every 6th notification Confirmable) - and
+    1-4 clients.  Registrations, then rounds of: the application changes resources, the I/O loop runs (the notifications go
+    out from INSIDE coap_io_prepare_io, with the send queue empty or holding only later deadlines) and returns its wait; the
+    clients acknowledge / reset some of them or stay silent; time advances by amounts around the retransmission deadlines
+    (T = 2000·2^k) and the idle-session timeout."""
+    st = rng.choice([5, 20, 30, 300])
+    nres = rng.choice([1, 1, 2, 3])
+    ncli = rng.choice([1, 1, 2, 3, 4])
+    modes = [rng.choice("ccccdda") for _ in range(nres)]
+    rs = ",".join("%s%d" % (m, rng.choice([0, 1, 7, 100, 0xFFFFFE])) for m in modes)
+    mids = [rng.randrange(0, 65536) for _ in range(ncli)]
+    evs, obs = [], []
+    for c in range(ncli):
+        for _ in range(rng.choice([1, 1, 1, 2])):
+            r = rng.randrange(nres)
+            mids[c] = (mids[c] + 1) % 65536
+            evs.append("reg:%d:%d:%d:0:%s:%d" % (c, r, rng.choice([1, 2, 3]), rng.choice("CCN"), mids[c]))
+            obs.append((c, r))
+    if rng.random() < 0.3:
+        evs.append("adv:%d" % rng.choice(OBSW_ADV))
+    for _ in range(rng.choice([1, 2, 3, 4, 6])):
+        for r in set(o[1] for o in obs if rng.random() < 0.7) or {obs[0][1]}:
+            evs += ["chg:%d" % r] * rng.choice([1, 1, 1, 2])
+        evs.append(rng.choice(["io", "io", "adv:%d" % rng.choice(OBSW_ADV)]))
+        if rng.random() < 0.25:          # a default resource sends a Confirmable every 6th time: run up to it
+            for _ in range(rng.choice([4, 5, 6])):
+                evs += ["chg:%d" % rng.choice(obs)[1], "io"]
+        for c in range(ncli):
+            x = rng.random()
+            if x < 0.35:
+                evs.append("ack:%d:%d" % (c, 1000 + rng.choice([0, 0, 0, 1])))
+            elif x < 0.42:
+                evs.append("rst:%d:%d" % (c, 1000))
+            elif x < 0.45:
+                evs.append("lost:%d" % c)
+        x = rng.random()
+        if x < 0.35:
+            evs += ["adv:2000", "adv:4000", "adv:8000", "adv:16000", "adv:32000", "adv:1"][:rng.choice([1, 2, 3, 6])]
+        elif x < 0.75:
+            evs += ["adv:%d" % rng.choice(OBSW_ADV) for _ in range(rng.choice([1, 1, 2, 3]))]
+        if rng.random() < 0.3:
+            evs.append("io")
+    return "obsw st=%d R=%s C=%d %s" % (st, rs, ncli, " ".join(evs))
+
+
+def gen_obsw_borrowed(rng):
+    """C11's own histories (all its event kinds: cancellations, error responses, deleted resources, shared tokens) as `obsw`"""
+    P11 = _p11()
+    line = P11.gen_interference_history(rng) if rng.random() < 0.3 else P11.gen_history(rng, rng.choice([8, 15, 25, 40]))
+    return "obsw" + line[3:]
+
+
+OBSW_SEG = re.compile(r"t=(\d+) .*Q\[([^\]]*)\] W(\d+|-)$")
+
+
+def oracle_obsw(itext):
+    """the property's last clause on the implementation's trace alone: at every io / adv event the value
+    coap_io_prepare_epoll() returned must not exceed the time to the earliest deadline in the send queue as it is when the
+    call returns, and must not be 0 ("nothing pending") while a retransmission is pending."""
+    for k, seg in enumerate(itext.split(" | ")):
+        m = OBSW_SEG.search(seg.strip())
+        if not m or m.group(3) == "-" or not m.group(2):
+            continue
+        now, w = int(m.group(1)), int(m.group(3))
+        dues = [int(x.split(".")[2]) for x in m.group(2).split(",")]
+        e = min(dues) - now
+        if e > 0 and (w == 0 or w > e):
+            return ("event #%d: coap_io_prepare_epoll() returns a wait of %d ms at t=%d%s but the earliest retransmission deadline "
+                    "in the send queue is %d ms away (t=%d): the reported wait exceeds the time to the earliest pending deadline"
+                    % (k, w, now, " (= nothing pending)" if w == 0 else "", e, min(dues)))
+    return None
+
+
+def judge_obsw(ctx, c):
+    i, m = c["impl"], c["model"]
+    if i is None:
+        return ("tie", "missing output")
+    if i.startswith("crash"):
+        return ("spec", "the server process dies: " + i[:300])
+    if i == "bad-op" or m == "bad-op":
+        return None if i == m else ("tie", "implementation `%s`, model `%s`" % (i[:80], (m or "")[:80]))
+    P11 = _p11()
+    it = P11.strip_client(i)
+    why = oracle_obsw(it)
+    if why:
+        return ("spec", why)
+    if m is None or it != m:
+        return ("tie", P11.first_diff(it, m or ""))
+    return None
+
+
 def gen_sq(rng):
     n = rng.randint(1, 14)
     ops, base, live = [], 1000, []
@@ -202,8 +385,12 @@ def generate(ctx, escalate=False):
         n *= 3
     out += [L.gen_scenario(rng, "c06") for _ in range(n)]
     out += [gen_wf(rng) for _ in range(n // 2)]
+    out += exhaustive_q(ctx, L.PARAM_SETS[:3] if th else [L.PARAM_SETS[0]])
+    out += [gen_q(rng) for _ in range(n // 3)]
+    out += [gen_obsw(rng) for _ in range(n // 4)] + [gen_obsw_borrowed(rng) for _ in range(n // 12)]
     out += [gen_sq(rng) for _ in range(n)]
     out += [gen_tmo(rng) for _ in range(n)]
+    ctx.cov["exhaustive_q"] = "every drop subset of the first 10 datagrams (1024) with request-code ACKs x %d parameter sets" % (3 if th else 1)
     ctx.cov["exhaustive"] = ("every drop subset of the first 10 datagrams (1024) x %d parameter sets; every lost / write-fails "
                              "pattern of a message's attempts x every outcome, with a second message waiting for its NSTART "
                              "slot, x %d parameter sets" % (5 if th else 2, 5 if th else 2))
@@ -237,6 +424,8 @@ def judge(ctx, c):
     i, m, s = c["impl"], c["model"], c["spec"]
     if op == "msg":
         return L.judge_msg(ctx, c, L.oracle_c06)
+    if op == "obsw":
+        return judge_obsw(ctx, c)
     if i is not None and i.startswith("crash"):
         return ("spec", "the implementation dies: " + i[:200])
     if op == "sq" and i and m and i != "bad-op":
@@ -266,14 +455,21 @@ def known(ctx, c):
 
 def nontrivial(c):
     i = c["impl"] or ""
+    if c["input"].startswith("obsw"):
+        return " n" in i and " W" in i
     return " tx@" in " " + i or (c["input"].startswith("sq") and "." in i) or c["input"].startswith("tmo")
 
 
 def classify(c):
     w = c["input"].split()
+    if w[0] == "obsw":
+        i = c["impl"] or ""
+        return "obsw:con-in-io" if re.search(r"(^| )n\d+\.\d+:[^ ]*:C:\d+ ; [^|]* W\d", i) else "obsw"
     if w[0] != "msg":
         return w[0]
     i = c["impl"] or ""
+    if " q:" in c["input"] or re.search(r",[qQ]\d", "," + (w[2] if len(w) > 2 else "")):
+        return "msg:reqack" + (":giveup" if ":retries:" in i else "") + (":bad" if ":bad:" in i else "")
     k = "msg:%dsess" % (w[1].count(",") + 1)
     if "nack@" in i and ":retries:" in i:
         k += ":giveup"
@@ -298,6 +494,8 @@ def search(ctx, tie_breaks, proof):
             out.append(" ".join(w[:3] + evs))
     out += [L.gen_scenario(rng, "c06") for _ in range(3000)]
     out += [gen_wf(rng) for _ in range(1500)]
+    out += [gen_q(rng) for _ in range(1500)]
+    out += [gen_obsw(rng) for _ in range(1000)]
     return out
 
 
